@@ -222,6 +222,33 @@ check(
     "DESIGN.md section 4 C20",
 )
 
+check(
+    "C10", "fault_enumeration",
+    "Generated kill matrix on the real loky backend: victims x kill kind (SIGKILL/SIGTERM/SIGSEGV/abort/_exit(0)/_exit(1)) x "
+    "life-cycle instant (argument unpickling, task start, mid-task, result pickling, result sending with a parent-side "
+    "delayed kill, idle between calls, next call's start-up) over histories of 2-5 calls on one Parallel object with and "
+    "without a with-block.  Each call runs under a repeating SIGALRM watchdog; oracle: termination error or exact results, "
+    "never a hang, at most one failing call per fault, healthy distinct workers afterwards.  One root cause (worker killed "
+    "while writing a large result) is a listed known finding and its class is excluded from the search.",
+    "Kill instants inside loky's own queue locks are reached only probabilistically; 30 s decides a hang (normal < 1 s); "
+    "POSIX only; histories are sampled, the (kind x instant) cells are all generated but not exhaustively crossed with victims.",
+    "Hypothesis generated fault sequences (fault injection into live worker processes) with watchdog + result oracle",
+    "DESIGN.md section 4 C10", engine="E2 real backends",
+)
+
+check(
+    "C15", "exploration",
+    "Three generated sub-domains: (a) n_jobs x CPU-affinity mask x LOKY_MAX_CPU_COUNT against an independent formula for "
+    "cpu_count / effective_n_jobs of every backend; (b) real backends x n_jobs x task durations with start/end lines logged by "
+    "the tasks (O_APPEND): simultaneously open intervals and distinct workers never exceed n_jobs, n_jobs=1 runs inline; (c) "
+    "nested Parallel calls of depth 1-3 under loky/threading/multiprocessing: every nested task runs in its parent's process, "
+    "deeper levels in their parent's thread.",
+    "Worker replacement during a call is assumed not to happen in short runs; the cgroup quota is read by the harness itself; "
+    "n_jobs up to 4 in the concurrency part.",
+    "Hypothesis generated configurations; differential oracle (independent formula) + trace invariants over task-written logs",
+    "DESIGN.md section 4 C15", engine="E2 real backends",
+)
+
 NOT_YET = "check not built yet in this session (work in progress; see DESIGN.md section 4 for the planned generator and oracle)"
 
 
